@@ -706,3 +706,22 @@ func RetVal(r *ssa.Return, i int) ssa.Value {
 	}
 	return v
 }
+
+// PhiEdgeConds: for every incoming edge of a merge, the conditions under which control arrives through that edge.
+func (p *Program) PhiEdgeConds(ph *ssa.Phi) []map[string]bool {
+	a := p.FA(ph.Parent())
+	var out []map[string]bool
+	for i := range ph.Edges {
+		pr := ph.Block().Preds[i]
+		m := a.PathCondStrings(pr)
+		if iff, ok := pr.Instrs[len(pr.Instrs)-1].(*ssa.If); ok && pr.Succs[0] != pr.Succs[1] {
+			c := a.X.E(iff.Cond)
+			if pr.Succs[1] == ph.Block() {
+				c = negate(c)
+			}
+			m[c.String()] = true
+		}
+		out = append(out, m)
+	}
+	return out
+}
